@@ -26,6 +26,7 @@ const (
 	findingSize = "C06-maxdatabytes-last-valset"
 	findingWrap = "C06-median-unixnano-wrap"
 	findingRoom = "C06-evidence-budget-exceeds-block-room"
+	findingFloor = "C06-median-floor-rank-faulty-minority"
 )
 
 func maxVals() int {
